@@ -194,9 +194,17 @@ def run_groups(chk, pid, groups, key_of, hang_in_scope=True, completion_required
                               {"base": base, "reference": rs[0][3].label, "variant": v.label, "over": v.over,
                                "sched": v.sched}))
                 group_ok = False
+        if diffs:
+            # how many runs of the group (reference included) deviate from the most frequent output: a reference that
+            # happened to be the odd one out makes every variant "differ" although the outputs agree with each other
+            import collections
+            allsigs = [json.dumps(r[5], sort_keys=True) for r in rs if r[5] is not None]
+            mode_n = collections.Counter(allsigs).most_common(1)[0][1]
+            n_out, n_all = len(allsigs) - mode_n, len(allsigs)
         for v, what, info in diffs:
-            key = differs_key(base, v, len(diffs), nvar) if differs_key else key_of(base, v, "differs")
-            chk.violation(key, what + " [%d of %d variants of this configuration differ]" % (len(diffs), nvar), info)
+            key = differs_key(base, v, n_out, n_all) if differs_key else key_of(base, v, "differs")
+            chk.violation(key, what + " [%d of %d variants differ from the reference; %d of %d runs deviate from the most "
+                          "frequent output]" % (len(diffs), nvar, n_out, n_all), info)
         if group_ok and ref_sig is not None and nvar:
             if ref_sig.get("npackets", 0) >= 2:
                 chk.nontrivial_case(core.sha(cfggen.case_ident(base)))
